@@ -97,3 +97,16 @@ def expand(task):
                 for lon in (0.0, 45.0, 93.0, -87.0, 180.0, -180.0, 271.0, -539.0):
                     pts.append(('exact_pole', (lon, lat), r, None))
     return pts
+
+
+_BUF = [0.0, 0.0]
+
+
+def as_argument(p, reuse):
+    """the point as the caller passes it: a fresh tuple, or (reuse=True) ONE list object per process that is updated in place between
+    calls - a library that keeps a reference to its argument then sees the next point where it remembered the previous one"""
+    if not reuse:
+        return (p[0], p[1])
+    _BUF[0] = p[0]
+    _BUF[1] = p[1]
+    return _BUF
